@@ -53,9 +53,11 @@ enum Cmd {
 
 impl NameVolume {
     pub fn generate(rng: &mut Rng, big: bool) -> NameVolume {
+        // Now and then a crowd: more than a thousand (or two thousand) short-lived threads.
+        if rng.chance(1, 12) { return NameVolume::generate_crowd(rng); }
         let threads = rng.range_usize(2, 6);
         // "<TMP>" stands for the temporary directory: different spellings of one path.
-        const PARTS: [&str; 12] = ["", "_", "a", "tmp_0_0", "7", "x_1", "index.gbz", "v1.2", ".", "x", "./x", "<TMP>/x"];
+        const PARTS: [&str; 17] = ["", "_", "a", "tmp_0_0", "7", "x_1", "index.gbz", "v1.2", ".", "x", "./x", "<TMP>/x", "Vec<u64>", "a:b", "what?", "tab\there", "star*|\"q\""];
         let same = rng.chance(1, 2);
         let long = |rng: &mut Rng| -> String { let n = *rng.pick(&[200usize, 245, 250, 255, 300]); let mut s = String::from("long-"); while s.len() < n { s.push((b'a' + (s.len() % 26) as u8) as char); } s };
         let first = if rng.chance(1, 10) { long(rng) } else { rng.pick(&PARTS).to_string() };
@@ -83,6 +85,22 @@ impl NameVolume {
         }
         let exit_calls: Vec<(usize, bool)> = (0..threads).map(|_| if rng.chance(1, 4) { (rng.range_usize(1, 40), rng.bool()) } else { (0, false) }).collect();
         NameVolume { parts, schedule, exit_calls }
+    }
+
+    /// 1030-2100 threads that each request one to three names with the same name part; mostly one after another,
+    /// a few dozen of them alive at the same time.
+    pub fn generate_crowd(rng: &mut Rng) -> NameVolume {
+        let threads = *rng.pick(&[1030usize, 1500, 2100]);
+        let part = rng.pick(&["crowd", "a", "x_1"]).to_string();
+        let overlap = rng.range_usize(1, 40);
+        let mut schedule = Vec::new();
+        // Thread t takes its first name when it starts and the rest `overlap` threads later, so that about
+        // `overlap` threads are alive at any time.
+        for t in 0..threads + overlap {
+            if t < threads { schedule.push((t, 1)); }
+            if t >= overlap { schedule.push((t - overlap, rng.range_usize(1, 2))); }
+        }
+        NameVolume { parts: vec![part; threads], schedule, exit_calls: Vec::new() }
     }
 
     pub fn run(&self, prop: &str) -> Outcome {
@@ -173,6 +191,7 @@ impl NameVolume {
         out.stats.probe_if(late_start, "a thread started while others were already running");
         out.stats.probe_if(exit_while_others_alive, "a thread exited while others were still alive");
         out.stats.probe_if(alive_max >= 3, "three or more threads alive at once");
+        out.stats.probe_if(n > 1024, "more than 1024 threads in one process");
         out
     }
 
